@@ -187,6 +187,7 @@ def errJson : Err → Json
   | .rangeTooLarge => obj [("err", "rangeTooLarge")]
   | .rangeMismatch => obj [("err", "rangeMismatch")]
   | .not206 st shown => obj [("err", "not206"), ("status", ofNat st), ("shown", ofStr shown)]
+  | .contentRangeMismatch shown => obj [("err", "contentRangeMismatch"), ("shown", ofStr shown)]
   | .reassembledTooLarge => obj [("err", "reassembledTooLarge")]
   | .decodeFailed shown => obj [("err", "decodeFailed"), ("shown", ofStr shown)]
   | .decodedTooLarge shown => obj [("err", "decodedTooLarge"), ("shown", ofStr shown)]
@@ -257,6 +258,9 @@ def handle (fn : String) (a : Json) : R Json := do
     let rs := computeRanges (← natF a "n") (← natF a "c")
     pure (ofList (rs.map fun (s, e) => ofList [ofNat s, ofNat e]))
   | "contentRange" => pure (ofOpt ofNat (parseContentRange (← strF a "s")))
+  | "chunkRange" =>
+    let total := match fieldOpt a "total" with | none => none | some v => v.getNat?.toOption
+    pure (ofBool (contentRangeMismatch (← optStr a "s") (← natF a "start") (← natF a "stop") total))
   | "contentLength" => pure (ofOpt ofNat (parseContentLength (← strF a "s")))
   | "codecOf" => pure (ofOpt ofStr (codecOf (← strF a "s")))
   | "readBody" =>
@@ -295,25 +299,38 @@ def handle (fn : String) (a : Json) : R Json := do
       valid := fun u => !(reject.any fun sub => PyStr.contains sub u),
       join := joinFn, presigned := fun _ => presigned, decompress := decFn, bracketOk := bracketFn oks }
     let o := origin ⟨paths, dead⟩
-    -- which (codec, data) pairs does the decode step need?  (so the harness can supply the codec oracle)
-    let e1 := fetchEncoded env o cfg sched1 [] url
-    let need1 := match e1.val with
-      | .ok (d, ce) => (match codecOf ce with | some c => [(c, d)] | none => [])
-      | .error _ => []
-    let need2 := match e1.val with
-      | .error e =>
-        if retryable e then
-          match (fetchEncoded env o cfg sched2 e1.st url).val with
+    let run (sc1 sc2 : List Nat) : Json :=
+      let r := fetchUrl env o cfg sc1 sc2 [] url
+      obj [("val", valJson r.val), ("trace", traceJson r.tr), ("requests", ofList (r.st.map reqJson))]
+    let r := fetchUrl env o cfg sched1 sched2 [] url
+    -- a decode failure may be a miss in the codec table: which (codec, data) pairs does the decode step need?
+    let missing : List (List Char × Bytes) :=
+      match r.val with
+      | .error (.decodeFailed _) =>
+        let e1 := fetchEncoded env o cfg sched1 [] url
+        let need1 := match e1.val with
           | .ok (d, ce) => (match codecOf ce with | some c => [(c, d)] | none => [])
           | .error _ => []
-        else []
-      | .ok _ => []
-    let missing := (need1 ++ need2).filter fun (c, d) => (decs.find? (fun t => t.1 == c && t.2.1 == d)).isNone
+        let need2 := match e1.val with
+          | .error e =>
+            if retryable e then
+              match (fetchEncoded env o cfg sched2 e1.st url).val with
+              | .ok (d, ce) => (match codecOf ce with | some c => [(c, d)] | none => [])
+              | .error _ => []
+            else []
+          | .ok _ => []
+        (need1 ++ need2).filter fun (c, d) => (decs.find? (fun t => t.1 == c && t.2.1 == d)).isNone
+      | _ => []
     if !missing.isEmpty then
       pure (obj [("need_decode", ofList (missing.map fun (c, d) => ofList [ofStr c, ofBytes d])), ("cap", ofNat (maxDecoded cfg))])
     else
-      let r := fetchUrl env o cfg sched1 sched2 [] url
-      pure (obj [("val", valJson r.val), ("trace", traceJson r.tr), ("requests", ofList (r.st.map reqJson))])
+      -- other completion orders of the chunk attempts (rotations of the schedule), asked for when the outcome is an error
+      let nrot ← match fieldOpt a "rotations" with | none => pure 0 | some v => nat v
+      let rots := match r.val with
+        | .ok _ => []
+        | .error _ => (List.range nrot).filterMap fun j =>
+            if j = 0 then none else some (run (sched1.drop j ++ sched1.take j) (sched2.drop j ++ sched2.take j))
+      pure (obj [("val", valJson r.val), ("trace", traceJson r.tr), ("requests", ofList (r.st.map reqJson)), ("rotations", ofList rots)])
   | _ => throw s!"unknown function C31.{fn}"
 
 end VgiVerif.C31.Driver
